@@ -2137,7 +2137,21 @@ class Interp:
                 cont.bump()
         # loop-carried scalars / vectors: inside the body they denote "value at iteration start"
         declared_inside = {n["id"] for n in walk(s["body"]) if n.get("k") == "decl"}
-        for n in walk(s["body"]):
+        # the statements executed by the body: its own, and those of the local callables it calls (a by-reference capture
+        # assigned inside such a callable is carried by this loop just as if the assignment stood in the body)
+        body_nodes = list(walk(s["body"]))
+        seen_l = set()
+        k_ = 0
+        while k_ < len(body_nodes):
+            n_ = body_nodes[k_]
+            k_ += 1
+            if n_.get("k") == "call" and callee(n_).get("fid") in self.F.lambda_by_fid and callee(n_).get("fid") not in seen_l:
+                seen_l.add(callee(n_)["fid"])
+                lam_, spec_, _f = self.F.lambda_by_fid[callee(n_)["fid"]]
+                inner_ = list(walk(spec_.get("body")))
+                declared_inside |= {x_["id"] for x_ in inner_ if x_.get("k") == "decl"} | {p_["id"] for p_ in spec_.get("params", [])}
+                body_nodes.extend(inner_)
+        for n in body_nodes:
             tgt = None
             if n.get("k") == "assign":
                 tgt = n["l"]
